@@ -49,6 +49,8 @@ def symdict_set(it, d, key, val, pc):
     vc = it.vc
     if d.epoch < current_epoch():
         it.log_effect("dict-store", d, key, pc)
+    if type(key) is U and len(key.alts) > 1 and d.keys:
+        d.symkeys = True
     for g, k in vc.alts(key):
         if type(k) is Pair or isinstance(k, (SymList, SymDict, StructStr, Opaque)):
             raise Unsupported("symbolic dict key %r" % (k,))
@@ -508,7 +510,50 @@ def leaf_eq(it, a, b, pc):
             for (_, x), (_, y) in zip(la.elems, lb.elems):
                 res = vc.c_and(res, it.truth(it.compare(ast.Eq, x, y, fr, pc), fr, pc))
             return res
-        raise Unsupported("== on lists with optional elements")
+        fr = it.frames[-1]
+        ea = [(p_, x) for p_, x in la.elems if not vc.c_is_false(p_)]
+        eb = [(p_, x) for p_, x in lb.elems if not vc.c_is_false(p_)]
+        if len(ea) * len(eb) > 4096:
+            raise Unsupported("== on long lists with optional elements")
+
+        def eqv(x, y, px=None, py=None):
+            # evaluated under the presence of both elements (an absent element has no value)
+            q = pc
+            if px is not None:
+                q = vc.c_and(vc.c_and(pc, px), py)
+                if vc.c_is_false(q):
+                    return vc.CF
+            return it.truth(it.compare(ast.Eq, x, y, fr, q), fr, q)
+
+        if getattr(la, "origin", None) == "set" or getattr(lb, "origin", None) == "set":
+            # sets (insertion lists without duplicates): equal iff each present element of one
+            # has an equal present element in the other
+            if getattr(la, "origin", None) != getattr(lb, "origin", None):
+                return vc.CF
+            res = vc.CT
+            for xs, ys in ((ea, eb), (eb, ea)):
+                for px, x in xs:
+                    found = vc.CF
+                    for py, y in ys:
+                        found = vc.c_or(found, vc.c_and(py, eqv(x, y, px, py)))
+                    res = vc.c_and(res, vc.c_or(vc.c_not(px), found))
+            return res
+        # ordered sequences with optional elements: alignment of the present elements
+        n, k = len(ea), len(eb)
+        E = [[None] * (k + 1) for _ in range(n + 1)]
+        E[n][k] = vc.CT
+        for j in range(k - 1, -1, -1):
+            E[n][j] = vc.c_and(vc.c_not(eb[j][0]), E[n][j + 1])
+        for i in range(n - 1, -1, -1):
+            E[i][k] = vc.c_and(vc.c_not(ea[i][0]), E[i + 1][k])
+        for i in range(n - 1, -1, -1):
+            for j in range(k - 1, -1, -1):
+                pa, pb = ea[i][0], eb[j][0]
+                skip_a = vc.c_and(vc.c_not(pa), E[i + 1][j])
+                skip_b = vc.c_and(vc.c_and(pa, vc.c_not(pb)), E[i][j + 1])
+                both = vc.c_and(vc.c_and(pa, pb), vc.c_and(eqv(ea[i][1], eb[j][1], pa, pb), E[i + 1][j + 1]))
+                E[i][j] = vc.c_or(skip_a, vc.c_or(skip_b, both))
+        return E[0][0]
     if ta is SymDict or tb is SymDict:
         if ta is not SymDict:
             a, b, ta, tb = b, a, tb, ta
@@ -977,7 +1022,10 @@ def symdict_items(it, d, what):
                 elems.append([p, (k, v)])
             else:
                 elems.append([p, SymList([[vc.CT, k], [vc.CT, v]], is_tuple=True)])
-    return SymList(elems)
+    out = SymList(elems)
+    if d.symkeys:
+        out.origin = "symkey-view"
+    return out
 
 
 def symdict_method(it, d, name, args, kwargs, pc):
@@ -1033,6 +1081,7 @@ def symdict_copy(d):
     n.keys = list(d.keys)
     n.pres = dict(d.pres)
     n.vals = dict(d.vals)
+    n.symkeys = d.symkeys
     return n
 
 
